@@ -124,4 +124,34 @@ PROPS = {
         "level_text": "For every explored (position, legal move) the SEE answers were monotone in the threshold and their supremum was an admissible minimax balance (~1e6 moves x ~90 thresholds quick, ~2.5e7 moves thorough). Sound for any tie-break the engine uses. Held on the executions observed.",
         "level_note": "trusted: the 60-line reference swap; pins and recapturing-pawn promotions are outside the modelled exchange, as in the statement",
     },
+    "C11": {
+        "pkg": "./c11",
+        "stages": [
+            {"name": "main", "timeout_q": 1500, "timeout_t": 7200},
+            {"name": "asan", "flags": ["-asan"], "timeout_q": 1500, "timeout_t": 7200},
+            {"name": "checkptr", "flags": ["-gcflags=all=-d=checkptr"], "timeout_q": 1500, "timeout_t": 7200},
+            {"name": "epd", "mod": "tharness", "pkg": "./c11epd", "timeout_q": 1500, "timeout_t": 7200},
+            {"name": "epd-asan", "mod": "tharness", "pkg": "./c11epd", "flags": ["-asan"], "timeout_q": 1500, "timeout_t": 7200, "tiers": ["thorough"]},
+        ],
+        "rule": "cases = (a) valid positions from all generators incl. up to 8 promoted pieces per side in every mix, castling-ready and raw (non-capturable) e.p. targets: FromFEN(P.FEN()) must equal P attribute by attribute (snapshot hook), FromFEN(T).FEN()==T for the reference-printed canonical text T, "
+                "ParseFEN into a previously used board must give the same, InvalidPieceCount must be false, and the UCI `position fen T; fen` must echo T; (b) arbitrary byte strings from a seeded structure-aware mutator (truncation at every byte, every single-byte substitution over a small alphabet on four seeds, "
+                "field drop/duplicate/swap, overflowing digit runs, ranks not summing to 8, 9+ ranks, very long inputs, random bytes) fed to ParseFEN, FromFEN, FEN() of accepted boards and epd.Parse - a panic or sanitizer report is a violation (plain, -asan and checkptr builds, each input logged to disk before the call); "
+                "(c) UCI `position fen <junk>; fen`: a FEN the parser or the piece-count gate rejects must leave the previous position. distinct_nontrivial = distinct canonical FEN texts round-tripped (+ distinct fuzz batches in the epd stage). " + VALID,
+        "assumptions": [REF, "FEN text carries halfmove clocks 0..100 only (the parser's documented range)"],
+        "technique": "runtime monitor: round-trip oracle against the reference model + seeded structure-aware fuzzing of the parsers under plain, AddressSanitizer and checkptr builds + UCI rejection trace check",
+        "level_text": "All explored valid positions round-tripped exactly through FEN text (incl. into a reused board) and were accepted by the UCI position command; millions of hostile byte strings produced neither panic nor sanitizer report in ParseFEN/FromFEN/FEN/epd.Parse; no rejected FEN replaced the driver's position. Held on the executions observed.",
+        "level_note": "trusted: harness/ref FEN printer as the canonical text; ASan/checkptr see only executed paths",
+    },
+    "C14": {
+        "pkg": "./c14",
+        "stages": [{"name": "main", "timeout_q": 1500, "timeout_t": 7200}],
+        "rule": "cases = clock states: (a) through the export hook VerifLimits: exhaustive grid remaining time 1..4000 ms (thorough 1..20000) x increments {0..200, 1e3..1e9} x both colours, boundary neighbourhoods of 30/60/120/30k/120k/1e6/1e9/1e12, random clocks incl. movetime; "
+                "each case applies exactly the statement's inequalities (hard > 0, hard <= remaining, hard <= remaining-30 when remaining > 30, movetime => soft == hard == movetime) and re-evaluates with 12 variants of the OPPONENT's clock and increment, which must not change anything; "
+                "(b) end to end in synctest virtual time: the real uci.Driver with a blocking mock search; the SoftTime option the mock receives and the exact virtual instant at which Stop closes (the deadline actually armed, also after `go ponder` + `ponderhit`) are judged by the same inequalities "
+                "and must equal the helpers' values for the side to move. distinct_nontrivial = distinct remaining-time values of the exhaustive grid + distinct end-to-end clock states.",
+        "assumptions": ["virtual time inside testing/synctest bubbles is exact: no wall-clock quantity enters a verdict", "safety margin is 30 ms as documented in uci.TimeSafetyMargin"],
+        "technique": "runtime monitor: inequality oracle over an exhaustive grid through an export hook + end-to-end observation of the armed deadline in synctest virtual time with the real driver",
+        "level_text": "All grid, boundary and random clock states satisfied the statement's inequalities and were independent of the opponent's clock (~3e6 quick / ~3e7 thorough states); in thousands of virtual-time runs the real driver armed exactly that deadline for the side to move, incl. after ponderhit. Held on the executions observed.",
+        "level_note": "trusted: testing/synctest's virtual clock; the hook only forwards to the unexported timeControl helpers",
+    },
 }
